@@ -2,15 +2,22 @@
 
 Case lines
   hist <op>,<op>,...     r:<addrhex>:<ty>:<old>:<new> | s:<k> | t:<d>
-  e2e  <op>,<op>,...     c:<port>:<value> | s:<k> | t:<d>       (ports b (c-typed), i, j (i-typed),
-                         x (rParamF) and a0 a1 a2 (rArrayF "a#3"), f-typed: value = binary32 bit pattern)
+  e2e  <op>,<op>,... <table>     c:<path>:<t><v> | q:<path> | s:<k> | t:<d>
+                         a table with one port of every macro kind of port-sugar.h (E2E_PORTS below = e2e_ports of
+                         harness/h_C15.cpp); t/v: i<dec> c<dec> f<binary32 bits, decimal> S<hex symbol> T F;
+                         <table> is that table for the model driver (the harness has it compiled in)
 Output: one '|'-separated field per operation (format in harness/h_C15.cpp).
 
 spec_check is a reference machine written from the property text only (it
 shares no code with the Coq model): a list of retained events with the time
-of their last recording, a cursor, and for e2e a dictionary of parameter
-values.  It predicts the whole output line; the first differing field names
-the clause of the statement that fails."""
+of their last recording, a cursor, and for e2e a dictionary address -> value
+(the abstract object: what a set message must store is C14's statement -
+clamp to the declared range, symbols to their index -; a change of a numeric
+or option port is one event; after a seek the object is the abstract history
+replayed: state after undoing event k = state before event k).  It predicts
+the whole output line; the first differing field names the clause of the
+statement that fails.  In e2e the type tag of an event is not judged (C14's
+contract), the object and the number of ports the undo messages reach are."""
 
 import struct
 
@@ -22,19 +29,28 @@ WINDOW = 2
 RULE = ("operation histories of length 0..60 over 2..8 addresses (one value type i/f/c per address), values from "
         "32-bit boundary patterns and counters, clock steps 0..4 s (rarely larger), seeks by +-1, +-few, beyond "
         "either end and INT_MIN/INT_MAX; four profiles (mixed, cap-crossing, merge-window, seek-heavy) plus "
-        "end-to-end histories through the repo's rParam/rParamI ports with the undo messages dispatched back.  "
+        "end-to-end histories through one port of every macro kind of port-sugar.h (rParam, rParamI with and without "
+        "range, rParamF with and without range, rToggle, rOption, rArrayF, rArrayI, rArrayT, rArrayOption with "
+        "rOptionsBound, both ports of rParams, rCOptionCb with a counting setter): sets (values at and beyond the "
+        "bounds, option symbols), queries, seeks and clock steps, the undo messages dispatched back; after every "
+        "operation the whole object and the number of ports reached are compared.  "
         "Non-trivial = the history contains a merge, a record after an undo, a record at the 20-event cap or a "
         "clamped seek.")
 TRUSTED = ["harness/h_C15.cpp defines time() in the executable (the library's time(NULL) reads the harness clock), "
            "builds the /undo_change messages with rtosc_amessage, decodes callback messages with rtosc_argument*, "
-           "and for e2e wires rParam/rParamI/rParamF/rArrayF ports to UndoHistory as test/undo-test.cpp does",
+           "and for e2e wires a table of macro-generated ports to UndoHistory as test/undo-test.cpp does "
+           "(reply(\"/undo_change\") -> recordEvent; the history's callback dispatches with recording disabled)",
+           "tools/props/C15.py E2E_PORTS repeats the harness's port table (names, kinds, declared ranges, options) for the "
+           "model driver and the oracle; a difference shows up as a disagreement",
            "tools/props/C15.py reference machine (spec_check) written from the property text"]
 ASSUMPTIONS = ["the clock never goes backwards (advance-clock steps are >= 0)",
                "addresses of any length (up to 300 bytes generated: the set-message buffer of rewind/replay is sized "
                "from the message since the long-address repair)",
                "payloads are 4-byte types (i f c) as in the statement's quantifier",
-               "end-to-end stream: c-, i- and f-typed ports (rParam, rParamI, rParamF, rArrayF); float values exclude NaN and "
-               "-0.0, for which the ports' float comparison and bit equality differ (the final fields are compared as bit patterns)"]
+               "end-to-end stream: float values exclude NaN and -0.0, for which the ports' float comparison and bit equality "
+               "differ (fields are compared as bit patterns); char-backed ports are driven with -128..127, option symbols are "
+               "known ones (C14's quantifier); one spelling per array element (no leading zeros in indices); the port table "
+               "has no two ports answering the same address and no port named undo_change"]
 
 SPECIAL = [0, 1, 2, 7, 127, 128, 255, 0x7fffffff, 0x80000000, 0xffffffff, 0x3f800000, 0xbf800000,
            0x7fc00000, 0x7f800000, 0x00000001, 0x40490fdb]
@@ -464,7 +480,12 @@ LEVEL_TEXT = ("For every operation history (unbounded length, any addresses that
               "clock steps) the model's seeks emit exactly the old values newest-first / new values oldest-first, clamp at "
               "both ends, a record discards the undone tail, keeps the 20 most recent events, and merges into the one "
               "retained event of the same address recorded at most 2 s earlier (first old, last new); the end-to-end "
-              "chain invariant gives undo-all / redo-all.  The model is tied to the code on every run.")
+              "chain invariant gives undo-all / redo-all.  For every table of C14's port models without shared addresses "
+              "and every history of set messages / seeks / clock steps the model runs, every undo message of a seek reaches "
+              "its port and the fields of the ports are the abstract store with the messages applied (C15_ports_seek), so "
+              "undo-all / redo-all hold of the fields (C15_ports_undo_all); the link is C14_undo_event_replays.  The model "
+              "is tied to the code on every run.")
 LEVEL_NOTE = ("Trusted: Coq kernel, extraction (ExtrOcamlBasic), OCaml driver, harness (incl. its time()), generator and "
-              "the Python reference machine.  The C++ code is modelled by hand (coq/Undo/UndoModel.v) and related to the "
+              "the Python reference machine.  The C++ code is modelled by hand (coq/Undo/UndoModel.v, coq/Undo/UndoPortsModel.v on "
+              "top of coq/Ports/SugarModel.v) and related to the "
               "model only by the correspondence run.  The model follows the code after the D13 repair.")
